@@ -2,7 +2,7 @@
    Statements only; each closed by [exact] of a lemma proved in Json/*P.v. *)
 From Coq Require Import List NArith ZArith.
 From PB Require Import Base.PBytes Json.JsonGrammar Json.JsonNumModel Json.JsonNumP Json.JsonIntP
-  Json.JsonLexModel Json.JsonLexP Json.JsonEncModel Json.JsonScalarModel Json.JsonScalarP Json.JsonB64P Json.JsonB64VarP Json.JsonB64IffP Json.JsonInt64P Json.JsonQuotedP.
+  Json.JsonLexModel Json.JsonLexP Json.JsonEncModel Json.JsonScalarModel Json.JsonScalarP Json.JsonB64P Json.JsonB64VarP Json.JsonB64IffP Json.JsonB64NlP Json.JsonInt64P Json.JsonQuotedP.
 Import ListNotations.
 Open Scope N_scope.
 
@@ -179,6 +179,16 @@ Theorem C22_bytes_base64_accepts_iff :
      b64_text (has_url_char (t_str tok)) (Nat.eqb (Nat.modulo (length (t_str tok)) 4) 0) (t_str tok) b).
 Proof. exact bytes_base64_accepts_iff. Qed.
 Print Assumptions C22_bytes_base64_accepts_iff.
+
+(* the same for all strings: encoding/base64 skips CR and LF anywhere, so s is accepted iff s
+   with its CR/LF bytes deleted ([strip_nl]) is such a text (the variant selection looks at s
+   as given, CR/LF included) *)
+Theorem C22_bytes_base64_accepts_iff_nl :
+  forall tok b, t_kind tok = KString ->
+    (unmarshal_bytes tok = Some b <->
+     b64_text (has_url_char (t_str tok)) (Nat.eqb (Nat.modulo (length (t_str tok)) 4) 0) (strip_nl (t_str tok)) b).
+Proof. exact bytes_base64_accepts_iff_nl. Qed.
+Print Assumptions C22_bytes_base64_accepts_iff_nl.
 
 (* consequences for rejection: every character of an accepted string is in the selected
    alphabet (or is padding when padding is in force); unpadded texts never have length 1 mod 4 *)
